@@ -637,6 +637,10 @@ impl<'tcx> Cx<'tcx> {
             }
         }
         if matches!(tcx.def_kind(did), DefKind::Fn | DefKind::AssocFn) {
+            // nominal `pub` inside a private module is not reachable from outside the crate: report the
+            // effective visibility so that `pub(crate)` -> `pub` in a private module is not a change of shape
+            // (the effective-visibility query type-checks opaque types and would steal MIR: it is asked only after
+            // every body has been read, and reported in the unit's `pub_unreachable` list)
             o.set("vis", J::s(&format!("{:?}", tcx.visibility(did))));
         }
         {
@@ -851,6 +855,7 @@ impl<'tcx> Cx<'tcx> {
 
 struct RefCollector {
     refs: Vec<DefId>,
+    methods: Vec<rustc_span::Symbol>,
 }
 
 impl<'v> rustc_hir::intravisit::Visitor<'v> for RefCollector {
@@ -859,6 +864,11 @@ impl<'v> rustc_hir::intravisit::Visitor<'v> for RefCollector {
             if let rustc_hir::def::Res::Def(DefKind::Fn | DefKind::AssocFn, did) = path.res {
                 self.refs.push(did);
             }
+        }
+        // `recv.method(..)` is resolved by type checking, which is exactly what must not run yet: every local associated
+        // function of that name is treated as a possible callee (ordering only)
+        if let rustc_hir::ExprKind::MethodCall(seg, ..) = &e.kind {
+            self.methods.push(seg.ident.name);
         }
         rustc_hir::intravisit::walk_expr(self, e);
     }
@@ -877,9 +887,15 @@ fn visit_order<'tcx>(tcx: TyCtxt<'tcx>, owners: &[LocalDefId]) -> Vec<LocalDefId
         }
         by_root.entry(r).or_default().push(o);
     }
+    let mut by_name: BTreeMap<rustc_span::Symbol, Vec<LocalDefId>> = BTreeMap::new();
+    for &r in &root_order {
+        if matches!(tcx.def_kind(r.to_def_id()), DefKind::AssocFn) {
+            by_name.entry(tcx.item_name(r.to_def_id())).or_default().push(r);
+        }
+    }
     let mut deps: BTreeMap<LocalDefId, Vec<LocalDefId>> = BTreeMap::new();
     for (&r, members) in by_root.iter() {
-        let mut c = RefCollector { refs: Vec::new() };
+        let mut c = RefCollector { refs: Vec::new(), methods: Vec::new() };
         for &mbr in members {
             if let Some(body) = tcx.hir_maybe_body_owned_by(mbr) {
                 rustc_hir::intravisit::Visitor::visit_body(&mut c, body);
@@ -891,6 +907,15 @@ fn visit_order<'tcx>(tcx: TyCtxt<'tcx>, owners: &[LocalDefId]) -> Vec<LocalDefId
                 let lr = tcx.typeck_root_def_id_local(ld);
                 if lr != r && by_root.contains_key(&lr) && !ds.contains(&lr) {
                     ds.push(lr);
+                }
+            }
+        }
+        for mname in c.methods {
+            if let Some(cands) = by_name.get(&mname) {
+                for &lr in cands {
+                    if lr != r && !ds.contains(&lr) {
+                        ds.push(lr);
+                    }
                 }
             }
         }
@@ -982,6 +1007,20 @@ fn extract(tcx: TyCtxt<'_>, dir: &str) {
     }
     root.set("bodies", J::Arr(bodies));
     root.set("stolen", J::Arr(stolen));
+    {
+        let ev = tcx.effective_visibilities(());
+        let mut unreach = Vec::new();
+        for owner in owners.iter() {
+            let did = owner.to_def_id();
+            if matches!(tcx.def_kind(did), DefKind::Fn | DefKind::AssocFn)
+                && tcx.visibility(did).is_public()
+                && !ev.is_reachable(*owner)
+            {
+                unreach.push(J::s(&defstr(tcx, did)));
+            }
+        }
+        root.set("pub_unreachable", J::Arr(unreach));
+    }
 
     // items: ADTs, impls, statics, traits
     let mut adts = Vec::new();
